@@ -50,8 +50,8 @@ Section Frame.
   Proof.
     intros f args st o v st' H. unfold str_helper in H.
     destruct (length args <? 3)%nat; [frame_done|].
-    destruct (arg_cases args 1 333) as [[a1 H1]|H1]; rewrite H1 in H; cbn [bind] in H; [|discriminate].
-    destruct (arg_cases args 2 333) as [[a2 H2]|H2]; rewrite H2 in H; cbn [bind] in H; [|discriminate].
+    destruct (arg_cases args 1 395) as [[a1 H1]|H1]; rewrite H1 in H; cbn [bind] in H; [|discriminate].
+    destruct (arg_cases args 2 395) as [[a2 H2]|H2]; rewrite H2 in H; cbn [bind] in H; [|discriminate].
     frame_done.
   Qed.
 
@@ -59,7 +59,7 @@ Section Frame.
   Proof.
     intros args st o v st' H. unfold h_datetime in H.
     destruct (length args <? 3)%nat; [frame_done|].
-    destruct (arg_cases args 2 361) as [[a2 H2]|H2]; rewrite H2 in H; cbn [bind] in H; [|discriminate].
+    destruct (arg_cases args 2 417) as [[a2 H2]|H2]; rewrite H2 in H; cbn [bind] in H; [|discriminate].
     destruct (parse_time _); frame_done.
   Qed.
 
@@ -70,9 +70,9 @@ Section Frame.
   Proof.
     intros args st o v st' H. unfold h_json in H.
     destruct (length args <? 3)%nat; [frame_done|].
-    destruct (arg_cases args 2 384) as [[a2 H2]|H2]; rewrite H2 in H; cbn [bind] in H; [|discriminate].
+    destruct (arg_cases args 2 437) as [[a2 H2]|H2]; rewrite H2 in H; cbn [bind] in H; [|discriminate].
     destruct a2; try frame_done.
-    destruct (arg_cases args 1 388) as [[a1 H1]|H1]; rewrite H1 in H; cbn [bind] in H; [|discriminate].
+    destruct (arg_cases args 1 441) as [[a1 H1]|H1]; rewrite H1 in H; cbn [bind] in H; [|discriminate].
     destruct (parse_json _) as [doc|]; [|frame_done].
     destruct (jget p doc) as [|x [|y l]]; frame_done.
   Qed.
@@ -81,9 +81,9 @@ Section Frame.
   Proof.
     intros args st o v st' H. unfold h_xml in H.
     destruct (length args <? 3)%nat; [frame_done|].
-    destruct (arg_cases args 2 416) as [[a2 H2]|H2]; rewrite H2 in H; cbn [bind] in H; [|discriminate].
+    destruct (arg_cases args 2 469) as [[a2 H2]|H2]; rewrite H2 in H; cbn [bind] in H; [|discriminate].
     destruct a2; try frame_done.
-    destruct (arg_cases args 1 420) as [[a1 H1]|H1]; rewrite H1 in H; cbn [bind] in H; [|discriminate].
+    destruct (arg_cases args 1 473) as [[a1 H1]|H1]; rewrite H1 in H; cbn [bind] in H; [|discriminate].
     destruct (xml_first _ _) as [| |[t|]|]; frame_done.
   Qed.
 
@@ -91,7 +91,7 @@ Section Frame.
   Proof.
     intros args st o v st' H. unfold h_time in H.
     destruct (length args <? 3)%nat; [frame_done|].
-    destruct (arg_cases args 2 600) as [[a2 H2]|H2]; rewrite H2 in H; cbn [bind] in H; [|discriminate].
+    destruct (arg_cases args 2 655) as [[a2 H2]|H2]; rewrite H2 in H; cbn [bind] in H; [|discriminate].
     destruct a2; frame_done.
   Qed.
 
@@ -193,7 +193,7 @@ Section Frame.
                  | (EvVal nx o2, st2) =>
                      match logical_op op with
                      | Some f => Ok (EvVal (vbool (f unar nx)) o2, st2)
-                     | None => Panic 880
+                     | None => Panic 886
                      end
                  end) = Ok (y, st') ->
                 st' = st /\ ((prepared_equality e && prepared_logopt next)%bool = true -> ref_of y = ORef)).
